@@ -108,8 +108,6 @@ BATCH = {"C14": 16}
 # of these is replayed natively on the real code with `cargo kani playback`
 for _n in SETS['C17'] + ['settings_new_rejects_exactly_zero_durations', 'settings_defaults_are_valid', 'retry_extreme_counts',
                           'master_construct_payload', 'master_filter_bool_kinds', 'master_filter_text_kinds', 'valve_packet_to_bytes',
-                          'valve_default_payload', 'gs3_request_packet_to_bytes', 'mc_as_string_multibyte']
-# java_send_frames_with_varint_length: `[Vec<u8>; 2].concat()` inside Java::send makes Kani report 'pointer to unallocated memory'
-# (unsupported construct; the same limit stops firstreq_minecraft_java): harness kept in kani/verif_java.rs, not counted:
+                          'valve_default_payload', 'gs3_request_packet_to_bytes', 'mc_as_string_multibyte']:
     if _n in HARNESSES:
         HARNESSES[_n]['replayable'] = True
